@@ -62,13 +62,19 @@ theorem cutLastPercent_spec (x y : Str) (hy : '%' ∉ y) : cutLastPercent (x ++ 
 
 theorem lowerChar_percent_self : lowerChar '%' = '%' := by decide
 
+/-- a port as `urlparse(url).port` reports it unchanged: decimal digits, no leading zero (so not `0`, which is
+    falsy for the code), at most 5 digits (≤ 65535 is not expressed; larger values make `urlparse` raise) -/
+def portOk (p : Str) : Bool :=
+  !p.isEmpty && p.all (fun c => "0123456789".toList.contains c) && p.head? != some '0' && p.length ≤ 5
+
 /-- well-formed URL of the grammar: no `%` in host/address/zone, zone delimiter `%` or `%25` (any `%…` without
-    a second `%`) -/
+    a second `%`), an IPv6 address contains `:`, the port (if any) is `portOk` -/
 def WfUrl (u : Url) : Prop :=
+  (∀ p, u.port = some p → portOk p = true) ∧
   match u.host with
   | .plain h => '%' ∉ h
   | .ipv6 a => '%' ∉ a
-  | .zoned a d z => '%' ∉ a ∧ '%' ∉ z ∧ ∃ d', d = '%' :: d' ∧ '%' ∉ d'
+  | .zoned a d z => '%' ∉ a ∧ ':' ∈ a ∧ '%' ∉ z ∧ ∃ d', d = '%' :: d' ∧ '%' ∉ d'
 
 theorem contains_iff {s : Str} {c : Char} : s.contains c = true ↔ c ∈ s := by simp
 
@@ -81,19 +87,21 @@ theorem fixedHostText_eq (u : Url) (hw : WfUrl u) :
   cases hh : u.host with
   | plain h =>
     simp only [WfUrl, hh] at hw
+    replace hw := hw.2
     have : '%' ∉ lowerStr h := percent_not_mem_lowerStr h hw
     split
     · rfl
     · simp [this]
   | ipv6 a =>
     simp only [WfUrl, hh] at hw
+    replace hw := hw.2
     have : '%' ∉ lowerStr a := percent_not_mem_lowerStr a hw
     split
     · rfl
     · simp [this]
   | zoned a d z =>
     simp only [WfUrl, hh] at hw
-    obtain ⟨ha, hz, d', rfl, hd'⟩ := hw
+    obtain ⟨_, ha, _, hz, d', rfl, hd'⟩ := hw
     have hurl : (u.render).contains '%' = true := by
       simp [Url.render, Host.render, hh]
     have hlow : lowerStr a ++ '%' :: d' ++ z = lowerStr a ++ '%' :: (d' ++ z) := by simp
@@ -103,5 +111,18 @@ theorem fixedHostText_eq (u : Url) (hw : WfUrl u) :
     simp only [hurl, Bool.not_true, Bool.false_eq_true, if_false, hlow]
     rw [cutLastPercent_spec _ _ hy]
     simp
+
+
+theorem percent_not_mem_port (p : Str) (h : portOk p = true) : '%' ∉ p := by
+  intro hm
+  simp only [portOk, Bool.and_eq_true, List.all_eq_true] at h
+  have := h.1.1.2 '%' hm
+  revert this; decide
+
+theorem lowerChar_colon (c : Char) (h : c = ':') : lowerChar c = ':' := by subst h; decide
+
+theorem colon_mem_lowerStr (s : Str) (h : ':' ∈ s) : ':' ∈ lowerStr s := by
+  simp only [lowerStr, List.mem_map]
+  exact ⟨':', h, by decide⟩
 
 end Upnp.C17
